@@ -166,9 +166,15 @@ package proto
 //@ ensures array.msgs[len(array.msgs)-1] == msg
 //@ ensures forall j int :: 0 <= j && j < old(len(array.msgs)) ==> array.msgs[j] == old(array.msgs[j])
 //@ ensures array.index == old(array.index)
+//@ ensures arr(array.msgs) == old(arr(array.msgs)) || fresh(array.msgs)
 
 //@ func (*Message).Append
+//@ assigns msg.array.msgs, elems(msg.array.msgs), alloc
 //@ ensures (msg.Type == ArrayMessage && msg.array != nil) <==> err == nil
+//@ ensures err == nil ==> len(msg.array.msgs) == old(len(msg.array.msgs)) + 1 && msg.array.msgs[len(msg.array.msgs)-1] == arrayMsg
+//@ ensures err == nil ==> forall j int :: 0 <= j && j < old(len(msg.array.msgs)) ==> msg.array.msgs[j] == old(msg.array.msgs[j])
+//@ ensures err == nil ==> arr(msg.array.msgs) == old(arr(msg.array.msgs)) || fresh(msg.array.msgs)
+//@ ensures err != nil ==> msg.array == nil || (len(msg.array.msgs) == old(len(msg.array.msgs)))
 
 //@ func (*Array).ReverseBy
 //@ requires {C07,C12} (step == 1 || step == 2) && len(array.msgs) % step == 0
